@@ -13,6 +13,10 @@ fn usage() -> ! {
   process::exit(2);
 }
 
+fn session_id(session: &Session) -> String {
+  session.args.id.clone()
+}
+
 fn main() {
   let mut argv = std::env::args().skip(1);
   let Some(id) = argv.next() else { usage() };
@@ -71,8 +75,22 @@ fn main() {
     workers,
     scale,
   });
-  let meta = run(&mut session);
-  let code = session.finish(&meta);
+  let id_for_report = session_id(&session);
+  let outcome = ordverif::runner::catch(move || {
+    let meta = run(&mut session);
+    session.finish(&meta)
+  });
+  let code = match outcome {
+    Ok(code) => code,
+    Err(record) => {
+      // a panic of the machinery itself: never a verdict
+      println!(
+        "INCONCLUSIVE property={id_for_report}: harness panic at {}: {}",
+        record.location, record.message
+      );
+      2
+    }
+  };
   // background threads (mock nodes, servers) must not keep the process alive
   process::exit(code);
 }
